@@ -124,4 +124,6 @@ sites! {
     STACK_BEFORE_SWAP, STACK_LOCKED, STACK_BEFORE_HEAD_UPDATE, STACK_BEFORE_RELEASE, STACK_SPIN,
     // uni crossbeam channel: every send attempt (a caller that retries in a loop of its own is seen making steps)
     UNI_XB_SEND_ENTER,
+    // multi arc crossbeam channel: every consume attempt on a listener's queue (a listener's poll; the discarding of what a dropped listener left)
+    MULTI_XB_CONSUME_ENTER,
 }
